@@ -13,7 +13,7 @@ set_option linter.unusedSimpArgs false
 
 /-- the nested `HasIndexFunc.Call` on two known, non-null, mark-free arguments of non-placeholder types
 for which the callbacks answer a known boolean: that boolean -/
-theorem hasIndex_call_known (c k : Value) (b : Bool)
+theorem hasIndex_call_known_d11b (c k : Value) (b : Bool)
     (hnl : c.isNull = false) (hnn : k.isNull = false) (hkl : c.isKnown = true) (hkn : k.isKnown = true)
     (hcl : c.containsMarked = false) (hcm : k.containsMarked = false)
     (htd : c.ty.isDyn = false) (hti : k.ty.isDyn = false)
@@ -230,7 +230,7 @@ theorem implGood'_index {as : List Value} {rt : Ty} (h : ImplArgsOK nfc indexSpe
     · exact hb
   have himpl : hasIndexImpl [c, key] .bool = .ok (boolVal b) := by
     simp only [hasIndexImpl, Value.hasIndex, binMarks_clean _ hcm hkm, hr]
-  simp only [indexImpl, hasIndex_call_known c key b hcn hkn hck hkk hcc hkc hcd hkd hhty himpl, boolTrue_boolVal]
+  simp only [indexImpl, hasIndex_call_known_d11b c key b hcn hkn hck hkk hcc hkc hcd hkd hhty himpl, boolTrue_boolVal]
   cases b
   · exact implGood'_err _ _
   · dsimp only
